@@ -6,7 +6,7 @@ CLAIMS = {
         'text': 'Decides, for all CFG paths of the real binary\'s MIR, that the only route to a trusted-state write from a '
                 'SendLastStateProof is behind every listed check having run and accepted, that each check function can only '
                 'succeed after its primitive PoW / chain-root / parent / MMR checks accepted, and that no other function may '
-                'call the trusted-state writers. A structural necessary condition of C01, not the behaviour as a whole.',
+                'call the trusted-state writers. A structural necessary condition of C01, not the behaviour as a whole. Plus C01.ref: the decision structure of check_if_response_is_matched and the header checkers conforms to a reviewed reference (no rejection removed or narrowed, no weaker way to succeed).',
         'note': 'Not decided: correctness of the comparisons inside check_if_response_is_matched, sampling match, MMR/PoW libraries.',
     },
     'C02': {
@@ -68,7 +68,7 @@ CLAIMS = {
                 'genesis init), only after both enough-proven-peers tests and only through a candidate assigned on the accepting edge of '
                 'count_max >= required; that writes start at last_final+1 with slice element 1 and the index range starts at 1 '
                 '(append-only, never rewritten, never decreasing); that the quorum is (max_outbound+1)/2; that per-peer vectors grow only '
-                'behind alignment/continuity/first-hash tests. The counting argument itself is a value clause.',
+                'behind alignment/continuity/first-hash tests. The counting argument itself is a value clause. Plus C07.ref: check-point bookkeeping (add / remove / index arithmetic, quorum formula) conforms to a reviewed reference.',
         'note': 'Not decided: that fewer-than-quorum deviating peers cannot block agreement; check point arithmetic.',
     },
     'C09': {
@@ -85,7 +85,7 @@ CLAIMS = {
         'text': 'Decides for all paths of both request builders that a request is returned only when start difficulty > last difficulty and '
                 'start number >= last number were both false; that sampling is reachable only when more than last-N blocks are missing '
                 '(otherwise all blocks, no samples); that samples are a HashSet collected, sorted and returned; that samples >= boundary are '
-                'clamped to boundary - 1. Sample counts and ranges are arithmetic (value clauses).',
+                'clamped to boundary - 1. Sample counts and ranges are arithmetic (value clauses). Plus C15.ref: sampling and request-construction arithmetic conforms to a reviewed reference.',
         'note': 'Not decided: FlyClient sample-count bound, samples strictly inside (start, boundary), f64 arithmetic.',
     },
     'C03': {
@@ -144,11 +144,14 @@ CLAIMS = {
                 'One reviewed entry (RelayProtocol::connected peer-id unwrap) rests on a stated assumption about tentacle session addresses.',
     },
     'C14': {
-        'technique': 'static analysis: the C10 abort-site engine on the closed call set of verify_tau / verify_total_difficulty with every parameter treated as peer-supplied',
-        'text': 'Decides ONLY the last sentence of C14 ("they never abort, whatever numbers a peer supplies"): no undischarged abort-capable '
-                'site and no explicit panic remains in the difficulty checks and their callees. The acceptance/rejection envelope is '
-                'arithmetic over epoch sequences and is not decided by static analysis.',
-        'note': 'Not decided: completeness/soundness of the tau envelope (value clause).',
+        'technique': 'static analysis: (a) the C10 abort-site engine on the closed call set of verify_tau / verify_total_difficulty with every parameter treated as peer-supplied; (b) exit census of both functions with helpers inlined at MIR level, compared with a reviewed reference',
+        'text': 'Decides (a) the last sentence of C14 ("they never abort, whatever numbers a peer supplies"): no undischarged abort-capable '
+                'site and no explicit panic remains in the difficulty checks and their callees; (b) conformance of the envelope arithmetic to a '
+                'reviewed reference: every reviewed rejection of verify_tau / verify_total_difficulty is still present with the same trigger, '
+                'success carries at least the reviewed conditions, and the value expressions (which epoch length multiplies which block '
+                'difficulty, the partial-epoch sums, the tau exponent) are the reviewed ones — insensitive to helper extraction, renaming and '
+                'reordering. That the reviewed arithmetic IS the right envelope is a value clause and is not decided.',
+        'note': 'Not decided: completeness/soundness of the tau envelope itself (value clause); (b) is relative to the reviewed reference in rules/census_table.json.',
     },
 }
 
